@@ -18,7 +18,8 @@ _cache = {}
 
 def module_path(modname):
     """cdd.shared.cst_utils -> /repo/cdd/shared/cst_utils.py (or package __init__)"""
-    base = os.path.join(REPO, *modname.split("."))
+    root = REPO if modname.split(".")[0] == "cdd" else os.path.dirname(os.path.dirname(os.path.abspath(__file__)))
+    base = os.path.join(root, *modname.split("."))
     if os.path.isfile(base + ".py"):
         return base + ".py"
     return os.path.join(base, "__init__.py")
@@ -78,7 +79,7 @@ def describe(modname, qualpath):
     )
     return {
         "function": "%s:%s" % (modname, qualpath),
-        "file": os.path.relpath(p, REPO),
+        "file": os.path.relpath(p, REPO) if p.startswith(REPO) else "(verif) " + os.path.relpath(p, os.path.dirname(os.path.dirname(os.path.abspath(__file__)))),
         "lines": [node.lineno, node.end_lineno],
         "sha256": hashlib.sha256(seg.encode("utf-8")).hexdigest(),
         "dropped": {
